@@ -69,6 +69,9 @@ def cases(tier, seed):
         c["split"] = i % 3 == 1
         if c["algorithm"] == "optimizer" and c["objective"] == "map" and i % 2 == 1 and c["definition"] != "full_like":
             c["plate"] = True
+            c["many"] = (i // 2) % 2 == 0
+        if c["algorithm"] == "mcmc" and c["ops"] in ("sliding", "mixed", "hmc-adaptive") and i % 2 == 0:
+            c["no_adapt"] = True  # an operator declared with disable_adaptation: it still has counters (and, for HMC, adaptors) to restore
         if c["algorithm"] == "optimizer":
             c["ptype"] = ["Parameter", "torchtree.Parameter", "torchtree.core.parameter.Parameter"][i % 3]
         elif "dual" in c["ops"] and i % 2 == 0:
@@ -106,13 +109,16 @@ def optimizer_spec(case, rng, ckpt):
     data = P("data", rng.normal(0.3, 1.0, n).round(3).tolist())
     if case["objective"] == "map" and case.get("plate"):
         # the optimised parameters are declared inside a plate (two clones x.0, x.1, each with its own prior)
+        k_ = 12 if case.get("many") else 2  # (more than ten optimised tensors: the per-parameter optimiser state has keys '0' ... '11')
         spec = [data,
-                {"id": "plate", "type": "Plate", "range": "0:2",
+                {"id": "plate", "type": "Plate", "range": "0:%d" % k_,
                  "object": {"id": "prior.*", "type": "Distribution", "distribution": "torch.distributions.Normal", "x": defined("x.*", n, case, rng), "parameters": {"loc": 0.0, "scale": 2.0}}},
                 {"id": "lik", "type": "Distribution", "distribution": "torch.distributions.Normal", "x": "data", "parameters": {"loc": "x.0", "scale": 0.7}},
-                {"id": "lik1", "type": "Distribution", "distribution": "torch.distributions.Normal", "x": "data", "parameters": {"loc": "x.1", "scale": 1.1}},
-                {"id": "joint", "type": "JointDistributionModel", "distributions": ["prior.0", "prior.1", "lik", "lik1"]}]
-        loss, params = "joint", ["x.0", "x.1"]
+                {"id": "lik1", "type": "Distribution", "distribution": "torch.distributions.Normal", "x": "data", "parameters": {"loc": "x.1", "scale": 1.1}}]
+        # (every clone has a likelihood term of its own, so that no two of them have the same gradients and optimiser moments)
+        spec += [{"id": "lik%d" % i, "type": "Distribution", "distribution": "torch.distributions.Normal", "x": "data", "parameters": {"loc": "x.%d" % i, "scale": 0.6 + 0.13 * i}} for i in range(2, k_)]
+        spec += [{"id": "joint", "type": "JointDistributionModel", "distributions": ["prior.%d" % i for i in range(k_)] + ["lik", "lik1"] + ["lik%d" % i for i in range(2, k_)]}]
+        loss, params = "joint", ["x.%d" % i for i in range(k_)]
     elif case["objective"] == "map":
         x = defined("x", n, case, rng)
         spec = [data, x,
@@ -191,6 +197,12 @@ def mcmc_spec(case, rng, ckpt):
         ops = [by[i] for i in sel]
         if kind.startswith("hmc"):
             hmc["weight"] = 5.0
+        if kind == "hmc-adaptive":
+            hmc["integrator"]["step_size"] = 1.7  # bold enough for rejections before the first checkpoints
+        if case.get("no_adapt"):
+            for o_ in ops:
+                if o_["id"] in ("op.slide", "op.hmc"):
+                    o_["disable_adaptation"] = True
     mcmc = {"id": "mcmc", "type": "MCMC", "joint": "joint", "operators": ops, "iterations": 12, "checkpoint": ckpt, "checkpoint_frequency": case["frequency"], "every": 0, "loggers": []}
     return spec + [mcmc]
 
